@@ -10,7 +10,7 @@ TECHNIQUE = ('fault enumeration over real processes: a forked child SIGKILLs its
              'aiuti/filelock.py for every N the scenario executes (complete enumeration per scenario), with 0-2 live contender '
              'processes; post-mortem acquirability probe and survivor exclusion oracle (O_EXCL marker + counter file)')
 RULE = ('cases: scenario in {blocking acquire/release, timed acquire, with, acquire_ctx, reentrant nested depth 2 + re-acquire, '
-        'acquire while another descriptor holds the lock (polling), holder that spawned a helper process while holding} x crash index N = 1..M (M = number of line events of '
+        'acquire while another descriptor holds the lock (polling), holder that spawned a helper process while holding, every unsuccessful way out of acquire, and blocking/timed/nested use of an object inherited through fork() from a live supervisor process that had used it before} x crash index N = 1..M (M = number of line events of '
         'aiuti/filelock.py the scenario executes on the current tree, measured by a counting run) x 0-2 contender processes; '
         'non-trivial: the child was killed while is_locked was true or inside _acquire/_release/acquire/release; '
         'distinct by (scenario, N, contenders)')
